@@ -7,7 +7,8 @@
                      (constants whose value is non-integral / ±Inf / -0 / the canonical NaN / > 2^53; the tail of
                      `floatToValue`, covered by `canon_floatToValue`; `parseLargeInt`, whose argument is ≥ 2^63).
   * `wrappers_ok`  : every result wrapper used by an arithmetic / bitwise / update operator is a canonical producer.
-  * `…_tie`        : return expressions / guards / trimming calls of the transcribed functions, as text.
+  * `…_tie`        : return expressions / guards / trimming calls of the transcribed functions that are NOT in the
+                     translatable subset, as text (the numeric decision functions are translated: `DecTie.lean`).
   * `whitespace_tie`: `parser.WhitespaceChars` is the table `StrNum.trimChars` (proved = WhiteSpace ∪ LineTerminator).
   * `maxInt_tie`   : the threshold the model uses is the one in vm.go.
 -/
@@ -19,7 +20,7 @@ import GojaModel.Generated.C05_Shapes
 namespace GojaModel.C05.Tie
 open GojaModel
 namespace G
-export GojaModel.Generated.C05_Shapes (facts_canonicalisers facts_conversions facts_mul facts_strnum facts_identity
+export GojaModel.Generated.C05_Shapes (facts_conversions facts_strnum facts_identity
   facts_includes facts_mathsign facts_parseint whitespaceChars maxIntShift)
 end G
 
@@ -80,34 +81,15 @@ theorem maxInt_tie : (2 : Int) ^ G.maxIntShift = Num.maxInt := by decide
 
 theorem whitespace_tie : G.whitespaceChars = StrNum.trimChars := by decide
 
-/-- vm.go canonicalisers: `intToValue` ends in `floatToValue(float64(i))` (287714a), `floatToInt`'s guard, `floatToValue`'s cases — what `Num.intToValue/floatToInt/floatToValue` transcribe -/
-theorem canonicalisers_tie : G.facts_canonicalisers = [
-  ("returns:intToValue", ["intCache[idx]", "valueInt(i)", "floatToValue(float64(i))"]),
-  ("conds:intToValue", ["idx >= 0 && idx < 256", "i >= -maxInt && i <= maxInt"]),
-  ("conds:floatToInt", ["(f != 0 || !math.Signbit(f)) && !math.IsInf(f, 0) && f == math.Trunc(f) && f >= -maxInt && f <= maxInt"]),
-  ("returns:floatToValue", ["intToValue(i)", "_negativeZero", "_NaN", "_positiveInf", "_negativeInf", "valueFloat(f)"])
-] := by rfl
-
-/-- runtime.go / value.go conversions: every ToIntN goes through `float64ToInt64Mod` (c5b41a6); `floatToIntClip`, `toLength`, `toIndex` decisions -/
+/-- runtime.go: every ToIntN goes through `float64ToInt64Mod` (c5b41a6) — the helper itself, `floatToIntClip`, `toLength`,
+`toIndex` and the canonicalisers are TRANSLATED to Lean and proved equal to the model in `DecTie.lean` -/
 theorem conversions_tie : G.facts_conversions = [
   ("returns:toInt8", ["int8(i)", "int8(float64ToInt64Mod(f))", "0"]),
   ("returns:toUint8", ["uint8(i)", "uint8(float64ToInt64Mod(f))", "0"]),
   ("returns:toInt16", ["int16(i)", "int16(float64ToInt64Mod(f))", "0"]),
   ("returns:toUint16", ["uint16(i)", "uint16(float64ToInt64Mod(f))", "0"]),
   ("returns:toInt32", ["int32(i)", "int32(float64ToInt64Mod(f))", "0"]),
-  ("returns:toUint32", ["uint32(i)", "uint32(float64ToInt64Mod(f))", "0"]),
-  ("conds:float64ToInt64Mod", ["f >= -two63 && f < two63", "f >= two63", "f < -two63"]),
-  ("returns:float64ToInt64Mod", ["int64(f)", "int64(f)"]),
-  ("conds:floatToIntClip", []),
-  ("returns:floatToIntClip", ["0", "math.MaxInt64", "math.MinInt64", "int64(n)"]),
-  ("conds:toLength", ["v == nil", "i < 0", "i >= maxInt"]),
-  ("returns:toLength", ["0", "0", "maxInt - 1", "i"]),
-  ("conds:Runtime.toIndex", ["num >= 0 && num < maxInt", "bits.UintSize == 32 && num >= math.MaxInt32"])
-] := by rfl
-
-/-- vm.go `_mul`: the `_negativeZero` guard (bd78985) and the overflow test -/
-theorem mul_tie : G.facts_mul = [
-  ("conds:_mul.exec", ["left == 0 && right < 0 || left < 0 && right == 0", "left == 0 || right == 0 || res/left == right", "ok", "ok"])
+  ("returns:toUint32", ["uint32(i)", "uint32(float64ToInt64Mod(f))", "0"])
 ] := by rfl
 
 /-- string → number: every conversion trims with `parser.WhitespaceChars` (never `strings.TrimSpace`, e80e384), `radixPrefix`/`stringToInt` decisions (d6061d6, 7637e2e), `ToInteger` (c886782), UTF-16 strings delegate (6010fc8) -/
@@ -147,11 +129,10 @@ theorem mathsign_tie : G.facts_mathsign = [
   ("returns:Runtime.math_sign", ["floatToValue(num)", "intToValue(1)", "intToValue(-1)"])
 ] := by rfl
 
-/-- builtin_global.go `parseInt`: the overflow detection of the accumulation loop — `n >= cutoff` (not `>`),
-`n1 < n || n1 > maxVal`, `cutoff = MaxInt64/base + 1`, `maxVal = MaxInt64`, the wrapping updates — exactly what
-`ParseInt.loop` transcribes and `parseInt_loop_no_wrap` is proved for; -0 and the hand-over to `parseLargeInt` -/
+/-- builtin_global.go `parseInt`: `cutoff = MaxInt64/base + 1`, `maxVal = MaxInt64`, the wrapping updates, -0 and the
+hand-over to `parseLargeInt` — what `ParseInt.loop` transcribes; the three GUARDS of the loop (`n >= cutoff`, `v >= base`,
+`n1 < n || n1 > maxVal`) are translated to Lean and tied in `DecTie.parseIntGuards_tie` -/
 theorem parseint_tie : G.facts_parseint = [
-  ("conds:parseInt", ["len(s) < 1", "len(s) < 1", "s[0] == '0' && len(s) > 1 && (s[1] == 'x' || s[1] == 'X')", "base == 0 || base == 16", "len(s) < 3", "n >= cutoff", "v >= base", "n1 < n || n1 > maxVal", "i == 0", "sign", "n == 0"]),
   ("assigns:parseInt", ["cutoff = math.MaxInt64/10 + 1", "cutoff = math.MaxInt64/16 + 1", "cutoff = math.MaxInt64/int64(base) + 1", "maxVal = math.MaxInt64", "n *= int64(base)", "n1 := n + int64(v)", "n = n1", "n = -n"]),
   ("returns:parseInt", ["parseLargeInt(s, base, sign)", "parseLargeInt(s, base, sign)", "_negativeZero, nil", "intToValue(n), nil", "_NaN, err"]),
   ("returns:parseLargeInt", ["_NaN, strconv.ErrSyntax", "valueFloat(n), nil"])
